@@ -32,13 +32,46 @@ def _all_sources(root):
     return out
 
 
-def _purge_old(keep=12):
+def _purge_old():
+    """Remove cache entries that are old AND beyond a per-kind count (never young ones:
+    concurrently running checks may be about to use them)."""
     d = os.path.join(CACHE, "cxx")
     if not os.path.isdir(d):
         return
-    ents = sorted((os.path.getmtime(os.path.join(d, e)), e) for e in os.listdir(d))
-    for _, e in ents[:-keep]:
-        shutil.rmtree(os.path.join(d, e), ignore_errors=True)
+    keep = {"lib": 10, "h": 80, "engine": 30, "nnd": 30}
+    now = time.time()
+    bykind = {}
+    for e in os.listdir(d):
+        if e.endswith(".lock"):
+            continue
+        try:
+            bykind.setdefault(e.split("-")[0], []).append((os.path.getmtime(os.path.join(d, e)), e))
+        except OSError:
+            pass
+    for kind, ents in bykind.items():
+        ents.sort()
+        for mt, e in ents[:-keep.get(kind, 20)]:
+            if now - mt > 3 * 3600:
+                shutil.rmtree(os.path.join(d, e), ignore_errors=True)
+
+
+class _dir_lock:
+    """Per-target lock: two checks needing the same cache entry build it once."""
+
+    def __init__(self, d):
+        self.path = d.rstrip("/") + ".lock"
+
+    def __enter__(self):
+        import fcntl
+        os.makedirs(os.path.dirname(self.path), exist_ok=True)
+        self.f = open(self.path, "w")
+        fcntl.flock(self.f, fcntl.LOCK_EX)
+        return self
+
+    def __exit__(self, *a):
+        import fcntl
+        fcntl.flock(self.f, fcntl.LOCK_UN)
+        self.f.close()
 
 
 def _compile_many(jobs):
@@ -77,6 +110,14 @@ def build_libs(extra_flags=(), with_util=True, tag=""):
     if os.path.exists(ok):
         os.utime(d, None)
         return res
+    with _dir_lock(d):
+        if os.path.exists(ok):
+            return res
+        _build_libs_locked(d, ok, flags, inc, with_util)
+    return res
+
+
+def _build_libs_locked(d, ok, flags, inc, with_util):
     _purge_old()
     shutil.rmtree(d, ignore_errors=True)
     os.makedirs(os.path.join(d, "o1"))
@@ -110,7 +151,6 @@ def build_libs(extra_flags=(), with_util=True, tag=""):
     shutil.rmtree(os.path.join(d, "o1"), ignore_errors=True)
     shutil.rmtree(os.path.join(d, "o2"), ignore_errors=True)
     open(ok, "w").write(str(time.time()))
-    return res
 
 
 def nndata_obj(netfile=None):
@@ -122,6 +162,14 @@ def nndata_obj(netfile=None):
     if os.path.exists(o):
         os.utime(d, None)
         return o
+    with _dir_lock(d):
+        if os.path.exists(o):
+            return o
+        _nndata_locked(d, o, net)
+    return o
+
+
+def _nndata_locked(d, o, net):
     os.makedirs(d, exist_ok=True)
     # the embedded file must stay readable only at compile time: copy it next to the object
     netcopy = os.path.join(d, "net.compr")
@@ -131,7 +179,6 @@ def nndata_obj(netfile=None):
         f.write('#include "incbin.h"\nINCBIN(NNData, "%s");\n' % netcopy)
     sh(["g++", "-std=c++11", "-O1", "-w", "-I" + os.path.join(TL, "nn"), "-c", src, "-o", o + ".tmp"], check=True, timeout=600)
     os.rename(o + ".tmp", o)
-    return o
 
 
 def make_net(kind="material", seed=1):
@@ -141,8 +188,11 @@ def make_net(kind="material", seed=1):
     os.makedirs(d, exist_ok=True)
     out = os.path.join(d, "%s-%d.compr" % (kind, seed))
     if not os.path.exists(out):
-        sh([exe, kind, str(seed), out + ".tmp"], check=True, timeout=600)
-        os.rename(out + ".tmp", out)
+        with _dir_lock(out):
+            if not os.path.exists(out):
+                tmp = out + ".tmp%d" % os.getpid()
+                sh([exe, kind, str(seed), tmp], check=True, timeout=600)
+                os.rename(tmp, out)
     return out
 
 
@@ -157,6 +207,14 @@ def build_engine(net_kind="material", net_seed=1, extra_flags=(), lib_flags=(), 
     if os.path.exists(exe):
         os.utime(d, None)
         return exe
+    with _dir_lock(d):
+        if os.path.exists(exe):
+            return exe
+        _build_engine_locked(d, exe, libs, srcs, net, extra_flags, defines)
+    return exe
+
+
+def _build_engine_locked(d, exe, libs, srcs, net, extra_flags, defines):
     os.makedirs(d, exist_ok=True)
     incflags = ["-I" + i for i in libs["inc"] + [APP]]
     objs = []
@@ -175,7 +233,6 @@ def build_engine(net_kind="material", net_seed=1, extra_flags=(), lib_flags=(), 
         shutil.rmtree(d, ignore_errors=True)
         raise BuildError("linking engine failed:\n" + se[-3000:])
     os.rename(exe + ".tmp", exe)
-    return exe
 
 
 def build_harness(name, extra_flags=(), lib_flags=(), with_util=True, netfile=None, extra_srcs=(), defines=(), priv_inc=False):
@@ -191,6 +248,14 @@ def build_harness(name, extra_flags=(), lib_flags=(), with_util=True, netfile=No
     if os.path.exists(exe):
         os.utime(d, None)
         return exe
+    with _dir_lock(d):
+        if os.path.exists(exe):
+            return exe
+        _build_harness_locked(d, exe, name, src, xs, libs, extra_flags, defines, priv_inc, netfile)
+    return exe
+
+
+def _build_harness_locked(d, exe, name, src, xs, libs, extra_flags, defines, priv_inc, netfile):
     os.makedirs(d, exist_ok=True)
     incflags = ["-I" + i for i in libs["inc"] + [os.path.join(VERIF, "harness"), APP] + (INC_TL_PRIV if priv_inc else [])]
     cmd = (["g++"] + libs["flags"] + list(extra_flags) + ["-D" + x for x in defines] + incflags +
@@ -200,4 +265,3 @@ def build_harness(name, extra_flags=(), lib_flags=(), with_util=True, netfile=No
         shutil.rmtree(d, ignore_errors=True)
         raise BuildError("building harness %s failed:\n%s" % (name, se[-4000:]))
     os.rename(exe + ".tmp", exe)
-    return exe
